@@ -116,6 +116,16 @@ func (p *c20prop) Gen(kind string, idx int64, seed int64, tier string) core.Case
 			b, _ := json.Marshal(c.Lz())
 			doc := string(b)
 			other := []string{"", "hp", "Hp", "XP", "GSAP2", "OSAPX", "BUPP", "B", "DH", "unknown"}[r.Intn(10)]
+			if r.Intn(5) == 0 {
+				// a valid configuration followed by something else: such
+				// input is not a JSON document at all (json.Valid is false),
+				// in half of the cases the tail is a second object with an
+				// unknown Type
+				tail := []string{`{"Type":"NOPE"}`, `]`, ` trailing`, `,`, `{"Type":"` + typ + `"}`, `}`, `null`, ` {"Type":"XP","BufferSize":1}`}[r.Intn(8)]
+				cc.Doc = doc + tail
+				cc.Cfg = gen.Cfg{Type: typ}
+				break
+			}
 			doc = strings.Replace(doc, `"Type":"`+typ+`"`, `"Type":"`+other+`"`, 1)
 			if r.Intn(3) == 0 {
 				doc = strings.Replace(doc, `"Type":"`+other+`",`, ``, 1)
@@ -225,6 +235,9 @@ func (p *c20prop) Run(c *core.Case, st *core.Stats) []core.Violation {
 
 func (p *c20prop) runDoc(c *core.Case, cc *C20Case, st *core.Stats) []core.Violation {
 	st.Inc("hostile_documents")
+	if !json.Valid([]byte(cc.Doc)) {
+		st.Inc("documents_that_are_not_valid_json")
+	}
 	pc, err := lz.ParseJSON([]byte(cc.Doc))
 	if err == nil {
 		return []core.Violation{core.V(c, "bad-document-accepted", "ParseJSON accepted %q and returned %s %+v", cc.Doc, typeName(pc), pc)}
